@@ -158,7 +158,7 @@ type ffCase struct {
 }
 
 type c23Stats struct {
-	Cases, Compiles, Locations, Comments, CommentsMatched, ExtraOptionLocs, ExtraCommentLocs, MultiLineSpans, LayoutCases, FFCases int
+	Cases, Compiles, Locations, Comments, CommentsMatched, ExtraOptionLocs, ExtraComments, MultiLineSpans, LayoutCases, FFCases int
 }
 
 type tracer struct {
@@ -209,6 +209,7 @@ func traceCase(id string, n int, key string, fc *featgen.Case, texts map[string]
 	main := strings.TrimPrefix(texts[featgen.Main], "\xEF\xBB\xBF")
 	ci := newCommentIndex(commentRaws)
 	begun := false
+	stdLocs, stdComments := 0, 0
 	features := fc.Features
 	if features == nil {
 		features = []string{}
@@ -249,6 +250,25 @@ func traceCase(id string, n int, key string, fc *featgen.Case, texts map[string]
 		}
 		st.Compiles++
 		locs := fd.GetSourceCodeInfo().GetLocation()
+		// non-vacuity of the mode relations: how much the extended modes add
+		ncm := 0
+		for _, loc := range locs {
+			ncm += len(loc.LeadingDetachedComments)
+			if loc.LeadingComments != nil {
+				ncm++
+			}
+			if loc.TrailingComments != nil {
+				ncm++
+			}
+		}
+		switch m.name {
+		case "std":
+			stdLocs, stdComments = len(locs), ncm
+		case "ec":
+			st.ExtraComments += ncm - stdComments
+		case "eol":
+			st.ExtraOptionLocs += len(locs) - stdLocs
+		}
 		tr.ev(map[string]any{"e": "Mode", "m": m.name, "n": len(locs)})
 		for _, loc := range locs {
 			ev := locEvent{E: "Loc", P: loc.Path, S: loc.Span, L: []int{}, T: []int{}, D: [][]int{}}
